@@ -2,6 +2,7 @@ import YgmVerif.Model.DistComm
 import YgmVerif.Model.ArrayOps
 import YgmVerif.Model.BagOps
 import YgmVerif.Model.Cache
+import YgmVerif.Model.DSet
 /-
 The remaining containers as instances of `Dist.Container`, so that they can be RUN OVER the joint messaging model
 `YgmVerif.Comm` by `Model/DistComm.lean` (a container operation is a message; the memory of a rank changes only at
@@ -27,6 +28,16 @@ The remaining containers as instances of `Dist.Container`, so that they can be R
   re-registers its continuation (`j = 1`) except the last: between them `execBegin … execEnd` and inserts from the
   handler are accepted, and `BarrierME` sees a pending callback throughout (no reduction round can be started).
   The joint guard ties the content of a packed message to the cache: `Cache.pending = some (opOf uid)`.
+
+* disjoint_set (`Model/DSet.lean`), namespace `YgmVerif.DSetComm`: the PRODUCT of `Comm` with the (global) message system
+  `DSet.State`.  `DSet.issue` / `DSet.deliver` are CALLED as they are.  `DSet` has "any in-flight message deliverable
+  next" and runs a handler body atomically; here the same body runs at `Comm.execBegin` and the messages it sends
+  (`DSet.send` from inside the handler) are the next `Comm.async` labels of that rank, in order (ghost `outbox`):
+      union r uid ex a b   `async_union[_and_execute](a, b)` on rank r = `DSet.issue` + `Comm.async r uid (owner a) false`
+      begin r uid          the handler of uid starts on r = `Comm.execBegin r uid` + `DSet.deliver` of that message
+      hsend r uid          the running handler issues its next message = `Comm.async r uid (owner target) false`
+      comm l               every other `Comm` label alone; `execEnd r _` only when the handler has issued everything
+  ghost `fl` = uids issued whose handler has not started (Comm's in-flight set, `|fl| = BarrierME.und`).
 
 Executable, core Lean only.
 -/
@@ -178,3 +189,93 @@ def sentList (jls : List Label) : List (Nat × Nat) :=
     | _ => none)
 
 end YgmVerif.CSetComm
+
+namespace YgmVerif.DSetComm
+open YgmVerif
+
+structure Par where
+  n : Nat
+  nh : Nat → Nat → Nat
+  /-- partitioner of the items -/
+  owner : Nat → Nat
+  /-- which disjoint_set message each uid carries -/
+  opOf : Nat → DSet.Msg
+
+/-- the item whose owner executes the message (first argument of `async_visit`) -/
+def target : DSet.Msg → Nat
+  | .walk _ t _ _ _ _ _ _ => t
+  | .setp x _ => x
+  | .resolve p _ _ => p
+
+inductive Label where
+  | comm (l : Comm.Label)
+  | union (r uid : Nat) (ex : Bool) (a b : Nat)
+  | begin (r uid : Nat)
+  | hsend (r uid : Nat)
+  deriving Repr
+
+structure St where
+  c : Comm.St
+  ds : DSet.State
+  /-- ghost: uids issued whose handler has not started -/
+  fl : List Nat
+  /-- ghost: what the handler running on a rank still has to send, in order -/
+  outbox : Nat → List DSet.Msg
+
+def init : St := { c := Comm.init, ds := DSet.init, fl := [], outbox := fun _ => [] }
+
+/-- `Comm` labels that may occur on their own -/
+def allowed : Comm.Label → Bool
+  | .async .. => false
+  | .runcb .. => false
+  | .execBegin .. => false
+  | _ => true
+
+def projC (P : Par) : Label → List Comm.Label
+  | .comm l => [l]
+  | .union r uid _ a _ => [.async r uid (P.owner a) false]
+  | .begin r uid => [.execBegin r uid]
+  | .hsend r uid => [.async r uid (P.owner (target (P.opOf uid))) false]
+
+/-- the messages a handler body sends: what it appended to the in-flight list -/
+def sent (s : DSet.State) (m : DSet.Msg) : List DSet.Msg := (DSet.handle s m).msgs.drop s.msgs.length
+
+/-- the joint part of the guard -/
+def guard (P : Par) (S : St) : Label → Bool
+  | .comm l => allowed l && (match l with
+      | .execEnd r _ => (S.outbox r).isEmpty
+      | _ => true)
+  | .union r uid ex a b => decide (r < P.n) && (P.opOf uid == DSet.Msg.walk ex a a b b (-1) a b)
+  | .begin r uid => decide (r < P.n) && S.fl.contains uid && S.ds.msgs.contains (P.opOf uid)
+  | .hsend r uid => decide (r < P.n) && ((S.outbox r).head? == some (P.opOf uid))
+
+/-- the disjoint_set side and the ghosts after the label -/
+def next (P : Par) (S : St) : Label → DSet.State × List Nat × (Nat → List DSet.Msg)
+  | .comm _ => (S.ds, S.fl, S.outbox)
+  | .union _ uid ex a b => (DSet.issue S.ds ex a b, S.fl ++ [uid], S.outbox)
+  | .begin r uid =>
+    let i := S.ds.msgs.idxOf (P.opOf uid)
+    (DSet.deliver S.ds i, S.fl.erase uid,
+     Barrier.upd S.outbox r (S.outbox r ++ sent { S.ds with msgs := S.ds.msgs.eraseIdx i } (P.opOf uid)))
+  | .hsend r uid => (S.ds, S.fl ++ [uid], Barrier.upd S.outbox r (S.outbox r).tail)
+
+def step (P : Par) (S : St) (l : Label) : Option St :=
+  if guard P S l then
+    match Comm.run P.n P.nh S.c (projC P l) with
+    | some c' => some { c := c', ds := (next P S l).1, fl := (next P S l).2.1, outbox := (next P S l).2.2 }
+    | none => none
+  else none
+
+def run (P : Par) (S : St) : List Label → Option St
+  | [] => some S
+  | l :: ls => match step P S l with
+    | none => none
+    | some S' => run P S' ls
+
+/-- the unions issued by the history, in order -/
+def unions (jls : List Label) : List (Nat × Nat) :=
+  jls.filterMap (fun l => match l with
+    | .union _ _ _ a b => some (a, b)
+    | _ => none)
+
+end YgmVerif.DSetComm
